@@ -132,7 +132,9 @@ fn run_check(property: &str, tier: &str) -> i32 {
     for sc in scs.iter().step_by((scs.len() / 50).max(1)) {
         let mut c1 = Chooser::new(vec![], vec![]); let r1 = run_guarded(&*sc.run, &mut c1);
         let mut c2 = Chooser::new(vec![], vec![]); let r2 = run_guarded(&*sc.run, &mut c2);
-        if r1.outcome != r2.outcome || r1.states != r2.states || c1.taken != c2.taken || c1.arity != c2.arity || r1.panic != r2.panic {
+        // (two runs that differ while one of them violates the property are left to the exploration: state the library carries from one
+        // execution into the next - a cache that outlives its connection, say - shows as a violation in the first run of a thread only)
+        if (r1.outcome != r2.outcome || r1.states != r2.states || c1.taken != c2.taken || c1.arity != c2.arity || r1.panic != r2.panic) && r1.violations.is_empty() && r2.violations.is_empty() {
             eprintln!("machinery: uncontrolled nondeterminism: two default executions of scenario {} differ", sc.name);
             return 2;
         }
